@@ -1,3 +1,21 @@
 """Calibration shim: the part of spasm's API that /repo/tests/test_codegen.py
 uses, implemented on top of the SVM.  Only ever put on sys.path by
-hidsim.selftest; it is not spasm and is not used by any property check."""
+hidsim.selftest; it is not spasm and is not used by any property check.
+
+With HIDSIM_CALIBRATE_REF=<file> every program the upstream tests compile is
+also parsed by hidsim.parse and run on the reference interpreter, and the two
+histories are compared; one JSON line per program is appended to <file>."""
+import os
+
+last_source = None
+
+if os.environ.get('HIDSIM_CALIBRATE_REF'):
+    import hidsim.hidc_api  # noqa: F401
+    from hidc.lexer import SourceCode as _SC
+    _orig = _SC.from_string.__func__
+
+    def _from_string(cls, string, filename='<string>'):
+        global last_source
+        last_source = string
+        return _orig(cls, string, filename)
+    _SC.from_string = classmethod(_from_string)
